@@ -129,13 +129,13 @@ pub mod cluster {
 
     pub fn err_json(e: &QueryError) -> Value { let m = e.to_string(); json!({"err": err_kind(e), "msg": m.chars().take(300).collect::<String>()}) }
 
-    fn batches_json(bs: &[arrow::record_batch::RecordBatch]) -> Value {
+    pub fn batches_json(bs: &[arrow::record_batch::RecordBatch]) -> Value {
         let mut rows = vec![];
         for b in bs { batch_rows(b, &mut rows); }
         json!({"ok": rows_json(&rows)})
     }
 
-    fn guarded_block<F: std::future::Future<Output = Value>>(f: F, timeout_s: u64) -> Value {
+    pub fn guarded_block<F: std::future::Future<Output = Value>>(f: F, timeout_s: u64) -> Value {
         let res = std::panic::catch_unwind(std::panic::AssertUnwindSafe(|| {
             runtime().block_on(async {
                 match tokio::time::timeout(std::time::Duration::from_secs(timeout_s), f).await {
@@ -195,6 +195,40 @@ pub mod cluster {
         }, 60)
     }
 
+    /// neutraliser of finding C09-F5 (merge stage inherits C03-F1): the partial rows of every active shard (REAL
+    /// `execute_fragment` of the coordinator's partial statement) merged by the coordinator's final statement through the
+    /// public pipeline with the optimizer rule `GroupKeyReduction` left out
+    pub fn run_merge_without(env: &Env, sql: &str, n: usize, rule: &str) -> Value {
+        use crate::fams::fam_sql::sqlgen::{exec::{run, ExecCfg, Rules}, ColTy, Val};
+        let plan = match plan_distributed(&env.base, sql) { Ok(p) => p, Err(e) => return err_json(&e) };
+        let Some(final_sql) = plan.final_sql.clone() else { return json!({"err": "harness", "msg": "no merge statement"}) };
+        let set = match splits_of(&env.base, &plan.table, n) { Ok(s) => s, Err(e) => return err_json(&e) };
+        let a = assign_lpt(&set, n);
+        let mut batches: Vec<arrow::record_batch::RecordBatch> = vec![];
+        for i in (0..n).filter(|&i| a.node_splits[i] > 0) {
+            let req = FragmentRequest { sql: plan.partial_sql.clone(), table: plan.table.clone(), shard_index: i, shard_count: n, splits_digest: set.digest() };
+            let peer = env.peer.clone();
+            let got = guarded_block(async move { match execute_fragment(&peer, &req).await {
+                Ok((r, _)) => match encode_ipc(&r.schema, &r.batches) { Ok(b) => json!({"bytes": crate::common::bytes_json(&b)}), Err(e) => err_json(&e) },
+                Err(e) => err_json(&e) } }, 60);
+            let Some(b) = got.get("bytes") else { return got };
+            match query_engine::distributed::coordinator::decode_ipc(&crate::common::json_bytes(b)) { Ok(bs) => batches.extend(bs), Err(e) => return err_json(&e) }
+        }
+        let Some(first) = batches.first() else { return json!({"err": "harness", "msg": "no partial batch"}) };
+        let mut cols = vec![];
+        for f in first.schema().fields() {
+            let cty = match f.data_type() {
+                arrow::datatypes::DataType::Int64 => ColTy::I64, arrow::datatypes::DataType::Int32 => ColTy::I32, arrow::datatypes::DataType::Float64 => ColTy::F64,
+                arrow::datatypes::DataType::Utf8 => ColTy::Str, arrow::datatypes::DataType::Date32 => ColTy::Date, arrow::datatypes::DataType::Boolean => ColTy::Bool,
+                other => return json!({"err": "harness", "msg": format!("partial column type {other}")}) };
+            cols.push(ColSpec { name: f.name().clone(), cty, null_pct: 50, boundary: false, special: false, unique: false });
+        }
+        let mut rows: Vec<Vec<Val>> = vec![]; let mut cuts = vec![];
+        for b in &batches { let before = rows.len(); batch_rows(b, &mut rows); if rows.len() > before { cuts.push(rows.len() - before); } }
+        let cat = Catalog { tables: vec![TableSpec { name: "qe_dist_partial".into(), cols, rows, cuts }] };
+        run(&cat, &final_sql, &ExecCfg::mem_batches().with_rules(Rules::Without(vec![rule.to_string()])))
+    }
+
     /// the plan the coordinator builds for the statement: scatter (Concat / TwoPhase / TopN over one table) or gather
     pub fn plan_info(env: &Env, sql: &str, n: usize) -> Value {
         let r = std::panic::catch_unwind(std::panic::AssertUnwindSafe(|| {
@@ -233,6 +267,8 @@ pub fn run_case(case: &Value) -> Value {
     let mut dist = serde_json::Map::new();
     let mut neutral = serde_json::Map::new();
     let mut full = serde_json::Map::new();
+    let mut merge = serde_json::Map::new();
+    let mut mem1: Option<Value> = None;
     let empty = vec![];
     for c in case["cfgs"].as_array().unwrap_or(&empty) {
         let name = c.as_str().unwrap_or("");
@@ -257,12 +293,31 @@ pub fn run_case(case: &Value) -> Value {
             };
             if differs { full.insert(name.into(), run_full_gather(&env, sql, n, self_ix)); }
         }
+        // neutralisers for failures inherited from the single-node engine: (i) the same statement single-node over IN-MEMORY
+        // tables (a layout-dependent engine failure is not a distribution defect), (ii) the TwoPhase merge without GroupKeyReduction
+        {
+            let local = runs.get("local");
+            let differs = match (local.and_then(|l| l.get("ok")), out.get("ok")) {
+                (Some(a), Some(b)) => sorted_rows(a) != sorted_rows(b),
+                (Some(_), None) => true,
+                _ => false,
+            };
+            if differs && mem1.is_none() {
+                let cat = Catalog::from_case(case);
+                mem1 = Some(crate::fams::fam_sql::sqlgen::exec::run(&cat, sql, &crate::fams::fam_sql::sqlgen::exec::ExecCfg::mem_single()));
+            }
+            if differs && info["shape"] == "TwoPhase" && out.get("ok").is_some() {
+                merge.insert(name.into(), run_merge_without(&env, sql, n, "GroupKeyReduction"));
+            }
+        }
         runs.insert(name.into(), out);
         dist.insert(name.into(), info);
     }
     let mut o = json!({"runs": Value::Object(runs), "dist": Value::Object(dist)});
     if !neutral.is_empty() { o["neutral_noself"] = Value::Object(neutral); }
     if !full.is_empty() { o["neutral_fullgather"] = Value::Object(full); }
+    if !merge.is_empty() { o["neutral_merge_nogkr"] = Value::Object(merge); }
+    if let Some(m) = mem1 { o["neutral_mem1"] = m; }
     o
 }
 
@@ -308,22 +363,31 @@ fn shadow_order(q: &mut QueryExpr) -> bool {
 }
 
 pub fn main(o: &Opts) {
-    if let Some(p) = &o.replay { for c in replay_cases(p) { let i = run_case(&c); emit(c, i); } return; }
+    if let (Some(p), None) = (&o.replay, o.get("probe")) { for c in replay_cases(p) { let i = run_case(&c); emit(c, i); } return; }
     // `--opt probe="SELECT …" [--opt cfgs=local,d3s0,d2x] [--opt files=2 --opt rg=5]`: one statement over the seed's catalog (dialect / defect probing)
     if let Some(sql) = o.get("probe") {
         let mut r = Rng::new(o.seed);
-        let cat = gen_catalog(&mut r, &CatOpts::from_opts(o));
+        let cat = match o.get("from") { Some(f) => Catalog::from_case(&replay_cases(f)[0]), None => gen_catalog(&mut r, &CatOpts::from_opts(o)) };
         for t in &cat.tables { eprintln!("{} {:?} rows={}", t.name, t.cols.iter().map(|c| format!("{}:{}:{}%", c.name, c.cty.name(), c.null_pct)).collect::<Vec<_>>(), t.rows.len()); }
         let cfgs: Vec<String> = o.get("cfgs").unwrap_or("local,d3s0,d2x").split(',').map(|s| s.to_string()).collect();
         let case = json!({"sql": sql, "tables": cat.tables_json(), "cat": cat.meta_json(), "cfgs": cfgs, "layout": {"files": o.get_usize("files", 2), "rg": o.get_usize("rg", 5)}});
         let i = run_case(&case);
-        for (k, v) in i["runs"].as_object().unwrap() { println!("{k}: {}", v.to_string().chars().take(600).collect::<String>()); }
+        for (k, v) in i["runs"].as_object().unwrap() { println!("{k}: rows={:?} {}", v["ok"].as_array().map(|a| a.len()), v.to_string().chars().take(o.get_usize("show", 600)).collect::<String>()); }
         for (k, v) in i["dist"].as_object().unwrap() { println!("{k}: {}", v.to_string().chars().take(700).collect::<String>()); }
+        // `--opt memcfgs=mem1,memb`: the same statement through sqlgen's single-node executors (in-memory layouts)
+        if let Some(m) = o.get("memcfgs") {
+            for c in m.split(',').filter_map(crate::fams::fam_sql::sqlgen::exec::ExecCfg::parse) {
+                let v = crate::fams::fam_sql::sqlgen::exec::run(&cat, sql, &c);
+                println!("{}: rows={:?} {}", c.name, v["ok"].as_array().map(|a| a.len()), v.to_string().chars().take(o.get_usize("show", 600)).collect::<String>());
+            }
+        }
         return;
     }
     let gopts = GenOpts::from_opts(o, "filter,agg,join,sort_limit,agg,subquery,filter,sort_limit,join,distinct,agg,setop,cte");
     let mut copts = CatOpts::from_opts(o);
-    if o.get("sizes").is_none() { copts.sizes = vec!["tiny".into(), "small".into(), "small".into(), "mid".into()]; }
+    // the reference semantics is a nested loop: keep tables small (default classes tiny / small <= 60 rows) and get many
+    // splits from small row groups instead
+    let _ = &mut copts;
     let per_cat = o.get_usize("per_cat", 8).max(1);
     let mut r = Rng::new(o.seed ^ 0xC09);
     let mut cat = gen_catalog(&mut r, &copts);
@@ -332,7 +396,7 @@ pub fn main(o: &Opts) {
     while n < o.cases && attempts < o.cases * 4 + 16 {
         if attempts % per_cat == 0 {
             cat = gen_catalog(&mut r, &copts);
-            layout = json!({"files": 1 + r.below(3), "rg": *r.pick(&[2u64, 5, 16, 50, 1000])});
+            layout = json!({"files": 1 + r.below(3), "rg": *r.pick(&[2u64, 3, 5, 8, 16, 1000])});
         }
         attempts += 1;
         let mut qr = r.fork();
